@@ -574,6 +574,8 @@ def _node_representer(dumper, node):
             del metadata[f]
 
     metadata = { key: value for key, value in metadata.items() if key not in dumper.exclude_metadata }
+    # what the children of this node inherit when the dump is parsed back (computed here since a flag expressed with a simple tag is removed from "metadata" below)
+    children_metadata = { **parent_metadata, **metadata }
 
     # try to use simple standard tag rather then encoded metadata
     # this is possible if we only have one special thing to handle
@@ -599,7 +601,7 @@ def _node_representer(dumper, node):
 
     pop = False
     if isinstance(node, ComposedNode):
-        dumper.metadata.append({ **parent_metadata, **metadata })
+        dumper.metadata.append(children_metadata)
         pop = True
 
     try:
